@@ -11,7 +11,7 @@ const SPEC: Spec = Spec {
         "refint (schoolbook add/sub on u64 limbs) is trusted; it is cross-checked against Python int on a transcript slice",
         "x86_64 only: the 32-bit digit build and the non-x86 adc/sbb fallbacks are not exercised",
     ],
-    bounds_quick: "S1 Dense(S5,4)^2; S2 Runs(S5,2,12)^2; S3 block-boundary lengths {4,5,6,9,10,11,14,15,16,20,21}x{+0,+1,+5,+6} with Runs(S5,2,.); S4 dense LCG digit strings, all length pairs <= 24 x 3x3 family members",
+    bounds_quick: "S1 Dense(S5,4)^2; S2 Runs(S5,2,12)^2; S3 block-boundary lengths {4,5,6,9,10,11,14,15,16,20,21}x{+0,+1,+5,+6} with Runs(S5,2,.); S4 dense LCG digit strings, all length pairs <= 24 x 3x3 family members; S5 scalar forms: Dense(S5,4)+Runs(S5,2,8) x 12 scalars (u32/u64/u128, +-i64/i128)",
     bounds_thorough: "S1 Dense(S5,4)^2; S2 Runs(S5,3,17)^2 (panicking forms on the Runs(S5,3,10) sub-square); S3 as quick with Runs(S5,3,.) for the shorter operand; S4 length pairs <= 48 x 7x7 family members",
     hang_secs: 120,
     probes: Some(probes),
@@ -244,6 +244,133 @@ fn body(ctx: &mut Ctx) {
                 }
                 ctx.sample(|| format!("dense LCG digits: len(a)={} len(b)={} x 3x3 family members, both orders", la, lb));
             }
+        }
+    }
+    // S5: scalar addends / subtrahends (u32, u64, u128 on BigUint; i64, i128 on BigInt), every form
+    if ctx.space("S5") {
+        let mut bigs: Vec<Vec<u64>> = alpha::dense(&alpha::SIGMA5, 4);
+        bigs.extend(alpha::runs(&alpha::SIGMA5, 2, tier.pick(8, 12)).into_iter().filter(|d| d.len() > 4));
+        let scal: Vec<u128> = vec![0, 1, 0xffff_ffff, 0x1_0000_0000, alpha::H as u128, alpha::M as u128, 1u128 << 64, (1u128 << 64) + 1, (alpha::M as u128) << 64, 1u128 << 127, u128::MAX - 1, u128::MAX];
+        for (i, d) in bigs.iter().enumerate() {
+            if !ctx.mine(i as u64) {
+                continue;
+            }
+            let a = mk(d);
+            for &t in &scal {
+                ctx.case();
+                let tn = Nat::from_u128(t);
+                let sum = a.n.add(&tn);
+                if !a.n.is_zero() && t > 1 {
+                    ctx.nontrivial(1);
+                }
+                let args = || vec![format!("a={}", a.n.to_hex()), format!("s={:x}", t)];
+                let r = call(ctx, || &a.u + t);
+                expect_nat(ctx, "BigUint &a+u128", &args, r, &sum);
+                let r = call(ctx, || t + a.u.clone());
+                expect_nat(ctx, "BigUint u128+a", &args, r, &sum);
+                let r = call(ctx, || {
+                    let mut x = a.u.clone();
+                    x += t;
+                    x
+                });
+                expect_nat(ctx, "BigUint a+=u128", &args, r, &sum);
+                if let Ok(t64) = u64::try_from(t) {
+                    let r = call(ctx, || &a.u + t64);
+                    expect_nat(ctx, "BigUint &a+u64", &args, r, &sum);
+                    let r = call(ctx, || {
+                        let mut x = a.u.clone();
+                        x += t64;
+                        x
+                    });
+                    expect_nat(ctx, "BigUint a+=u64", &args, r, &sum);
+                    if let Ok(t32) = u32::try_from(t) {
+                        let r = call(ctx, || t32 + &a.u);
+                        expect_nat(ctx, "BigUint u32+&a", &args, r, &sum);
+                        let r = call(ctx, || {
+                            let mut x = a.u.clone();
+                            x += t32;
+                            x
+                        });
+                        expect_nat(ctx, "BigUint a+=u32", &args, r, &sum);
+                    }
+                }
+                // subtraction both ways
+                match a.n.sub(&tn) {
+                    Some(dv) => {
+                        let r = call(ctx, || &a.u - t);
+                        expect_nat(ctx, "BigUint &a-u128", &args, r, &dv);
+                        let r = call(ctx, || {
+                            let mut x = a.u.clone();
+                            x -= t;
+                            x
+                        });
+                        expect_nat(ctx, "BigUint a-=u128", &args, r, &dv);
+                        if let Ok(t64) = u64::try_from(t) {
+                            let r = call(ctx, || a.u.clone() - t64);
+                            expect_nat(ctx, "BigUint a-u64", &args, r, &dv);
+                        }
+                    }
+                    None => {
+                        if a.d.len() <= 2 {
+                            let r = call(ctx, || &a.u - t);
+                            expect_panic(ctx, "BigUint &a-u128 (a<s)", &args, r);
+                        }
+                    }
+                }
+                if let Some(dv) = tn.sub(&a.n) {
+                    let r = call(ctx, || t - &a.u);
+                    expect_nat(ctx, "BigUint u128-&a", &args, r, &dv);
+                    if let Ok(t64) = u64::try_from(t) {
+                        let r = call(ctx, || t64 - a.u.clone());
+                        expect_nat(ctx, "BigUint u64-a", &args, r, &dv);
+                    }
+                }
+                // BigInt with signed scalars (both signs of both operands)
+                for (sa, x) in [(false, &a.pos), (true, &a.neg)] {
+                    let xi = Int::new(sa, a.n.clone());
+                    for ts in [t as i128, (t as i128).wrapping_neg()] {
+                        let ti = Int::from_i128(ts);
+                        let iargs = || vec![format!("x={}", xi.to_hex()), format!("s={}", ts)];
+                        let r = call(ctx, || x + ts);
+                        expect_int(ctx, "BigInt &x+i128", &iargs, r, &xi.add(&ti));
+                        let r = call(ctx, || x - ts);
+                        expect_int(ctx, "BigInt &x-i128", &iargs, r, &xi.sub(&ti));
+                        let r = call(ctx, || ts - x);
+                        expect_int(ctx, "BigInt i128-&x", &iargs, r, &ti.sub(&xi));
+                        let r = call(ctx, || {
+                            let mut y = x.clone();
+                            y += ts;
+                            y
+                        });
+                        expect_int(ctx, "BigInt x+=i128", &iargs, r, &xi.add(&ti));
+                        let r = call(ctx, || {
+                            let mut y = x.clone();
+                            y -= ts;
+                            y
+                        });
+                        expect_int(ctx, "BigInt x-=i128", &iargs, r, &xi.sub(&ti));
+                        if let Ok(t64) = i64::try_from(ts) {
+                            let r = call(ctx, || x + t64);
+                            expect_int(ctx, "BigInt &x+i64", &iargs, r, &xi.add(&ti));
+                            let r = call(ctx, || t64 - x.clone());
+                            expect_int(ctx, "BigInt i64-x", &iargs, r, &ti.sub(&xi));
+                        }
+                    }
+                    let tu = Int::from_nat(tn.clone());
+                    let iargs = || vec![format!("x={}", xi.to_hex()), format!("s={:x}u128", t)];
+                    let r = call(ctx, || x + t);
+                    expect_int(ctx, "BigInt &x+u128", &iargs, r, &xi.add(&tu));
+                    let r = call(ctx, || x - t);
+                    expect_int(ctx, "BigInt &x-u128", &iargs, r, &xi.sub(&tu));
+                    let r = call(ctx, || {
+                        let mut y = x.clone();
+                        y -= t;
+                        y
+                    });
+                    expect_int(ctx, "BigInt x-=u128", &iargs, r, &xi.sub(&tu));
+                }
+            }
+            ctx.sample(|| format!("a={} with 12 scalars: u32/u64/u128 add/sub forms on BigUint, i64/i128/u128 forms on +-a as BigInt", a.n.to_hex()));
         }
     }
     // S3: block-boundary family
